@@ -164,7 +164,7 @@ func (p *c17bPeer) handle(c *c17bConn) {
 		p.mu.Unlock()
 		c.conn.Close()
 	}()
-	helper := &c17Peer{fbasn: p.fbasn}
+	helper := &c17Peer{fbasn: p.fbasn, capLayout: c.id}
 	hdr := make([]byte, 19)
 	for {
 		partial = false
